@@ -1,75 +1,4 @@
-// ---- environment of units `events` / `replay` (trusted) ----
-// R20 (ghost event log): a flume `Sender::send(&self, ev)` leaves no trace a contract could talk about.  `X.send(E)` is read as
-// `vx_send(X, E, &mut *vx_log)` - the same call plus a ghost log of what was handed to which sender - and the log is threaded
-// through the signatures as one extra ghost parameter `vx_log`.  Nothing executable depends on the log.
-#[verifier::reject_recursive_types(T)]
-pub ghost struct Sent<T> { pub to: Sender<T>, pub ev: T, pub ok: bool }
-#[verifier::external_body]
-pub fn vx_send<T>(s: &Sender<T>, ev: T, log: &mut Ghost<Seq<Sent<T>>>) -> (r: core::result::Result<(), SendError>)
-    ensures final(log)@ == old(log)@.push(Sent { to: *s, ev: ev, ok: r is Ok }),
-{ unimplemented!() }
-// the log grew by exactly one entry: `ev` handed to `to`
-pub open spec fn logged_one<T>(l0: Seq<Sent<T>>, l1: Seq<Sent<T>>, to: Sender<T>, ev: T) -> bool {
-    l1.len() == l0.len() + 1 && l1.subrange(0, l0.len() as int) =~= l0 && l1[l0.len() as int].to == to && l1[l0.len() as int].ev == ev
-}
-// l1 extends l0
-pub open spec fn extends<T>(l0: Seq<Sent<T>>, l1: Seq<Sent<T>>) -> bool {
-    l1.len() >= l0.len() && l1.subrange(0, l0.len() as int) =~= l0
-}
-// `ev` was handed to `to` at or after position `from`
-pub open spec fn sent_since<T>(l: Seq<Sent<T>>, from: int, to: Sender<T>, ev: T) -> bool {
-    exists|k: int| from <= k < l.len() && (#[trigger] l[k]).to == to && l[k].ev == ev
-}
-// a send to `to` failed at or after `from`: the receiver is gone (flume: a disconnected channel stays disconnected), so
-// whatever else was meant for it cannot be delivered and need not be attempted
-pub open spec fn dead_since<T>(l: Seq<Sent<T>>, from: int, to: Sender<T>) -> bool {
-    exists|k: int| from <= k < l.len() && (#[trigger] l[k]).to == to && !l[k].ok
-}
-pub open spec fn handed_over<T>(l: Seq<Sent<T>>, from: int, to: Sender<T>, ev: T) -> bool {
-    sent_since(l, from, to, ev) || dead_since(l, from, to)
-}
-pub proof fn lemma_sent_push<T>(l: Seq<Sent<T>>, x: Sent<T>, from: int, to: Sender<T>, ev: T)
-    requires 0 <= from <= l.len(),
-    ensures sent_since(l, from, to, ev) ==> sent_since(l.push(x), from, to, ev), x.to == to && x.ev == ev ==> sent_since(l.push(x), from, to, ev),
-{
-    if sent_since(l, from, to, ev) {
-        let k = choose|k: int| from <= k < l.len() && (#[trigger] l[k]).to == to && l[k].ev == ev;
-        assert(l.push(x)[k] == l[k]);
-    }
-    if x.to == to && x.ev == ev {
-        assert(l.push(x)[l.len() as int] == x);
-    }
-}
-pub proof fn lemma_sent_mono<T>(l: Seq<Sent<T>>, x: Sent<T>, from: int)
-    requires 0 <= from <= l.len(),
-    ensures
-        forall|to: Sender<T>, ev: T| sent_since(l, from, to, ev) ==> #[trigger] sent_since(l.push(x), from, to, ev),
-        sent_since(l.push(x), from, x.to, x.ev),
-        forall|to: Sender<T>| dead_since(l, from, to) ==> #[trigger] dead_since(l.push(x), from, to),
-        !x.ok ==> dead_since(l.push(x), from, x.to),
-        forall|to: Sender<T>, ev: T| handed_over(l, from, to, ev) ==> #[trigger] handed_over(l.push(x), from, to, ev),
-{
-    assert forall|to: Sender<T>| dead_since(l, from, to) implies #[trigger] dead_since(l.push(x), from, to) by {
-        let k = choose|k: int| from <= k < l.len() && (#[trigger] l[k]).to == to && !l[k].ok;
-        assert(l.push(x)[k] == l[k]);
-    }
-    if !x.ok { assert(l.push(x)[l.len() as int] == x); }
-    assert forall|to: Sender<T>, ev: T| sent_since(l, from, to, ev) implies #[trigger] sent_since(l.push(x), from, to, ev) by {
-        lemma_sent_push(l, x, from, to, ev);
-    }
-    lemma_sent_push(l, x, from, x.to, x.ev);
-}
-// String-keyed lookups by &str (the key is the String with these contents)
-pub uninterp spec fn key_string(s: Seq<char>) -> String;
-#[verifier::external_body]
-pub broadcast proof fn axiom_key_string(s: Seq<char>)
-    ensures #[trigger] key_string(s)@ == s,
-{}
-pub open spec fn m_has<V>(m: Map<String, V>, s: Seq<char>) -> bool { m.contains_key(key_string(s)) }
-#[verifier::external_body]
-pub fn vx_get_str<'a, V>(m: &'a HashMap<String, V>, k: &str) -> (r: Option<&'a V>)
-    ensures r is Some <==> m_has(m@, k@), r is Some ==> *r->Some_0 == m@[key_string(k@)],
-{ unimplemented!() }
+// ---- environment of unit `events` (trusted), on top of evlog_spec.rs ----
 // `.map(|(l, _)| l)` on the Option of a pair reference
 #[verifier::external_body]
 pub fn vx_opt_fst<'a, A, B>(o: Option<&'a (A, B)>) -> (r: Option<&'a A>)
@@ -95,12 +24,6 @@ pub fn vx_set_iter<K>(s: &HashSet<K>) -> (r: &Vec<K>)
 pub fn vx_map_into_vec<K, V>(m: HashMap<K, V>) -> (r: Vec<(K, V)>)
     ensures r@ == m.entries(),
 { unimplemented!() }
-// a ServiceRemoved that the arguments of notify_service_removal justify: its type is browsed, it went to that browser, and the
-// instance is listed under that type
-pub open spec fn removal_justified(q: Map<String, Sender<ServiceEvent>>, expired: Map<String, HashSet<String>>, s: Sent<ServiceEvent>) -> bool {
-    s.ev is ServiceRemoved && q.contains_key(s.ev->ServiceRemoved_0) && q[s.ev->ServiceRemoved_0] == s.to
-    && expired.contains_key(s.ev->ServiceRemoved_0) && expired[s.ev->ServiceRemoved_0]@.contains(s.ev->ServiceRemoved_1)
-}
 // DnsCache::get_addresses_for_host (proved in unit cachewalk: exactly the unexpired address records of the lower-cased name);
 // here only its result is named
 impl DnsCache {
@@ -490,3 +413,13 @@ pub proof fn lemma_still_connected_prefix(m0: Seq<Sender<DaemonEvent>>, l: Seq<T
         assert(l.push(x)[n0 + k - 1] == l[n0 + k - 1]);
     }
 }
+// ---- exec_command_verify, query side ----
+// `record_vec.iter().map(|(record, rr_type)| (record.as_str(), *rr_type)).collect()`: the same pairs, names borrowed
+#[verifier::external_body]
+pub fn vx_as_query_vec<'a>(v: &'a Vec<(String, RRType)>) -> (r: Vec<(&'a str, RRType)>)
+    ensures r@.len() == v@.len(), forall|i: int| 0 <= i < v@.len() ==> (#[trigger] r@[i]).0@ == v@[i].0@ && r@[i].1 == v@[i].1,
+{ unimplemented!() }
+// std::time::Duration::as_millis().min(u64::MAX as u128) as u64 (saturating conversion)
+#[verifier::external_body]
+pub fn vx_millis_u64(d: &Duration) -> (r: u64) { unimplemented!() }
+pub open spec fn questions_of(v: Seq<(String, RRType)>) -> Seq<(Seq<char>, RRType)> { Seq::new(v.len(), |i: int| (v[i].0@, v[i].1)) }
